@@ -277,6 +277,38 @@ class Ref:
                 val[outs[0]] = self.table_op(k, ins[0], outs[0], o, val)
             elif k == "PRELU":
                 val[outs[0]] = self.prelu(ins, outs[0], val)
+            elif k == "SQUARED_DIFFERENCE":
+                val[outs[0]] = self.sqdiff(ins, outs[0], val)
+            elif k == "SPLIT_V":
+                sizes, axis = self.const(ins[1]), self.const(ins[2])
+                if sizes is None or axis is None:
+                    raise Unsupported("dynamic split")
+                cuts = np.cumsum([int(v) for v in np.asarray(sizes).reshape(-1)])[:-1]
+                for oi, pv in zip(outs, np.split(val[ins[0]], cuts, axis=int(np.asarray(axis).reshape(-1)[0]))):
+                    if self.quant(oi) != self.quant(ins[0]):
+                        raise Unsupported("requantising split")
+                    val[oi] = pv
+            elif k == "SLICE":
+                beg, size = self.const(ins[1]), self.const(ins[2])
+                if beg is None or size is None or self.quant(ins[0]) != self.quant(outs[0]):
+                    raise Unsupported("general slice")
+                idx = tuple(slice(int(b0), int(b0) + int(s0)) for b0, s0 in zip(beg.reshape(-1), size.reshape(-1)))
+                val[outs[0]] = val[ins[0]][idx]
+            elif k == "UNPACK":
+                ax = int(o.get("Axis", 0))
+                for j, oi in enumerate(outs):
+                    if self.quant(oi) != self.quant(ins[0]):
+                        raise Unsupported("requantising unpack")
+                    val[oi] = np.take(val[ins[0]], j, axis=ax)
+            elif k == "PACK":
+                if any(self.quant(i) != self.quant(outs[0]) for i in ins):
+                    raise Unsupported("requantising pack")
+                val[outs[0]] = np.stack([val[i] for i in ins], axis=int(o.get("Axis", 0)))
+            elif k == "ARG_MAX":
+                axis = self.const(ins[1])
+                if axis is None:
+                    raise Unsupported("dynamic axis")
+                val[outs[0]] = np.argmax(val[ins[0]], axis=int(np.asarray(axis).reshape(-1)[0])).astype(np.int64)
             elif k == "SPLIT":
                 axis = self.const(ins[0])
                 if axis is None:
@@ -311,6 +343,37 @@ class Ref:
                 val[outs[0]] = np.clip(val[ins[0]], lo, hi)
             else:
                 raise Unsupported(k)
+
+    def sqdiff(self, ins, out_idx, val):
+        """squared_difference.cc (8-bit): both inputs rescaled to 2 * max scale with a left shift of 7, difference squared,
+        rescaled by (2 max)^2 / (2^14 s_out). The property lists the operator neither as exact nor as approximated; Vela builds
+        it from SUB and MUL, so one step is allowed"""
+        ty = self.tens(out_idx)["type"]
+        if ty not in ("int8", "uint8") or any(self.tens(i)["type"] != ty for i in ins[:2]):
+            raise Unsupported("SQUARED_DIFFERENCE type %s" % ty)
+        (s1,), (z1,) = [x[:1] for x in self.quant(ins[0])]
+        (s2,), (z2,) = [x[:1] for x in self.quant(ins[1])]
+        (so,), (zo,) = [x[:1] for x in self.quant(out_idx)]
+        va, vb = [val[i] if i in val else self.const(i) for i in ins[:2]]
+        if va is None or vb is None:
+            raise Unsupported("operand without a value")
+        va, vb = np.asarray(va).astype(np.int64), np.asarray(vb).astype(np.int64)
+        a = np.broadcast_to(va, np.broadcast_shapes(va.shape, vb.shape))
+        b = np.broadcast_to(vb, a.shape)
+        s1, s2, so = float(np.float32(s1)), float(np.float32(s2)), float(np.float32(so))
+        twice_max = 2.0 * max(s1, s2)
+        q1, sh1 = quantize_multiplier(s1 / twice_max)
+        q2, sh2 = quantize_multiplier(s2 / twice_max)
+        qo, sho = quantize_multiplier(twice_max * twice_max / (float(1 << 14) * so))
+        lo, hi = QRANGE[ty]
+        res = []
+        for x, y in zip((a - int(z1)).reshape(-1), (b - int(z2)).reshape(-1)):
+            d = mbqm(int(x) * 128, q1, sh1) - mbqm(int(y) * 128, q2, sh2)
+            res.append(min(hi, max(lo, mbqm(d * d, qo, sho) + int(zo))))
+        if any(out_idx in op2["inputs"] for op2 in self.sg["operators"]):
+            raise Unsupported("SQUARED_DIFFERENCE feeding another operator")
+        self.has_table_op = True
+        return np.array(res, dtype=np.int64).reshape(a.shape)
 
     def prelu(self, ins, out_idx, val):
         """reference_ops::BroadcastPrelu4DSlow (8-bit; the 16-bit kernel of reference_integer_ops has the same arithmetic)"""
@@ -617,6 +680,9 @@ class Ref:
                 else:
                     cnt = win.shape[0]
                     if cnt != kh * kw:
+                        # exact to one step only (the property lists it as approximated): meaningful when nothing computes on it
+                        if any(out_idx in op2["inputs"] for op2 in self.sg["operators"]):
+                            raise Unsupported("padded average pool feeding another operator")
                         self.padded_avg = True
                     s = win.sum(axis=0)
                     if t["type"] in ("int8", "int16"):
